@@ -177,6 +177,9 @@ structure Cand where
   /-- the pattern matches the whole name (an oracle answer: Go regexp, leftmost match = whole string) -/
   fullMatch : Bool
   obj : Obj
+  /-- the `goverter:context ARG` lines of the function's own doc comment (`pkgload.localConfig`, looked up under the
+  FUNCTION's name — not under the text of the extend setting) -/
+  localCtx : List S := []
   deriving Repr, Inhabited
 
 inductive SelErr
@@ -185,7 +188,10 @@ inductive SelErr
   | noMatch             -- a pattern without any usable match
   deriving Repr, DecidableEq, Inhabited
 
-def usable (o : Opts) (c : Cand) : Bool := match parse o c.obj with | .ok _ => true | .error _ => false
+/-- the options a candidate is parsed with: the consumer's options plus the candidate's own context declarations -/
+def candOpts (o : Opts) (c : Cand) : Opts := { o with localContext := o.localContext ++ c.localCtx }
+
+def usable (o : Opts) (c : Cand) : Bool := match parse (candOpts o c) c.obj with | .ok _ => true | .error _ => false
 
 /-- `pkgload.GetMatching`: a literal name selects exactly that function (or fails with its reason); a pattern selects
 every fully matching object that parses as a conversion function, in the order of the package scope (sorted names) -/
@@ -193,7 +199,7 @@ def selectExtend (literal : Bool) (lit : S) (o : Opts) (cands : List Cand) : Exc
   if literal then
     match cands.find? (fun c => c.name == lit) with
     | none => .error .notFound
-    | some c => (match parse o c.obj with | .ok _ => .ok [c.name] | .error e => .error (.parse e))
+    | some c => (match parse (candOpts o c) c.obj with | .ok _ => .ok [c.name] | .error e => .error (.parse e))
   else
     let ms := cands.filter (fun c => c.fullMatch && usable o c)
     if ms.isEmpty then .error .noMatch else .ok (ms.map (·.name))
